@@ -8,6 +8,7 @@ import (
 	"context"
 	"fmt"
 	"reflect"
+	"regexp"
 	"runtime"
 	"strings"
 
@@ -81,9 +82,12 @@ func (o Outcome) Recheck() (string, bool) {
 	return again.Canon(), again.Canon() == o.Canon()
 }
 
+var addrRe = regexp.MustCompile(`0x[0-9a-fA-F]+`)
+
 func (o Outcome) Canon() string {
 	if o.Panic != "" {
-		return "PANIC " + o.Panic + " @ " + o.PanicAt
+		// panic values may print pointers (%#v of AST nodes): addresses are not part of the outcome
+		return "PANIC " + addrRe.ReplaceAllString(o.Panic, "0x?") + " @ " + o.PanicAt
 	}
 	if o.Err != "" {
 		s := "ERR " + o.ErrType + ": " + o.Err
@@ -116,6 +120,17 @@ func Parse(text string) (p Parsed) {
 		return Parsed{InDomain: false, Why: "parse errors: " + errs[0].Msg}
 	}
 	return Parsed{PR: pr, InDomain: true}
+}
+
+// ParseLoose accepts a text whose parse reports errors (the ParseResult is still a value a
+// caller can hold and run); only a panicking parser puts it outside the domain.
+func ParseLoose(text string) (p Parsed) {
+	defer func() {
+		if r := recover(); r != nil {
+			p = Parsed{InDomain: false, Why: fmt.Sprintf("parser panic: %v", r)}
+		}
+	}()
+	return Parsed{PR: numscript.Parse(text), InDomain: true}
 }
 
 func Flags(in gen.Inputs) map[string]struct{} {
